@@ -6,7 +6,7 @@ import copy
 import re
 from typing import Collection, Iterable
 
-from pyrefact import core, parsing, processing
+from pyrefact import core, parsing, processing, tracing
 
 
 @processing.fix
@@ -137,6 +137,9 @@ def move_staticmethod_static_scope(source: str, preserve: Collection[str]) -> st
             attributes_to_preserve.add(node.attr)
 
     static_names = {funcdef.name for funcdef in parsing.iter_funcdefs(root)} | preserve
+    static_names |= {classdef.name for classdef in parsing.iter_classdefs(root)}
+    static_names |= {name.id for name in parsing.iter_assignments(root)}
+    static_names |= tracing.get_imported_names(root)
     name_replacements = {}
 
     replacements = {}
